@@ -98,7 +98,8 @@ def main():
             'import importlib, glob, os\n'
             'for p in sorted(glob.glob(os.path.join(%r, "harness", "props", "c*.py"))):\n'
             '    m = importlib.import_module("harness.props." + os.path.basename(p)[:-3])\n'
-            '    for t in getattr(m, "TRANSLATORS", []): t("/repo")\n' % (VERIF, VERIF)], cwd=VERIF)
+            '    for t in getattr(m, "TRANSLATORS", []): t("/repo")\n' % (VERIF, VERIF)], cwd=VERIF,
+           env=dict(os.environ, PYTHONHASHSEED='0'))
     caught = sum(1 for v in results.values() if v.get('caught'))
     print(f'{caught}/{len(results)} seeded changes caught')
     return 0
